@@ -16,6 +16,7 @@ import (
 	"github.com/stretchr/testify/require"
 
 	"github.com/form3tech-oss/f1/v2/internal/log"
+	"github.com/form3tech-oss/f1/v2/internal/metrics"
 	"github.com/form3tech-oss/f1/v2/internal/options"
 	"github.com/form3tech-oss/f1/v2/internal/progress"
 	"github.com/form3tech-oss/f1/v2/internal/verifh/kit"
@@ -80,6 +81,10 @@ func (p prog) emit(v int64) {
 	}
 }
 
+// the process-wide metrics instance that T.Time records stage durations on is created by the
+// root command of a real f1 binary; the harness does the same once
+func init() { metrics.Init(true) }
+
 type custom struct{ x int }
 
 type fieldErrors []string
@@ -87,8 +92,27 @@ type fieldErrors []string
 func (f fieldErrors) Error() string { return "invalid fields" }
 
 // exec runs an action list against a real T.
+// timed: the action runs inside a t.Time stage (transparent to control flow: the stage's
+// function is simply called, its duration recorded as a stage metric)
+func (a act) timed() bool {
+	if a.kind == 0 || a.kind == 5 {
+		return a.how == 1
+	}
+	return a.how >= 32
+}
+
 func (p prog) exec(t *f1testing.T, as []act) {
 	for _, a := range as {
+		if a.timed() {
+			b := a
+			if b.kind == 0 || b.kind == 5 {
+				b.how = 0
+			} else {
+				b.how -= 32
+			}
+			t.Time("stage", func() { p.exec(t, []act{b}) })
+			continue
+		}
 		switch a.kind {
 		case 0:
 			c := a.arg
@@ -161,12 +185,12 @@ func genActs(r *kit.Rand, ncleanups int, maxLen int, markBase *int, failBias int
 		x := r.Intn(100)
 		switch {
 		case x < 30 && ncleanups > 0:
-			as = append(as, act{0, r.Intn(ncleanups), 0})
+			as = append(as, act{0, r.Intn(ncleanups), kit.Pick(r, 0, 0, 0, 1)})
 		case x < 30+failBias:
-			as = append(as, act{kit.Pick(r, 1, 2, 3, 4), 0, r.Intn(20)})
+			as = append(as, act{kit.Pick(r, 1, 2, 3, 4), 0, r.Intn(20) + kit.Pick(r, 0, 0, 32)})
 		default:
 			*markBase++
-			as = append(as, act{5, 100 + *markBase, 0})
+			as = append(as, act{5, 100 + *markBase, kit.Pick(r, 0, 0, 0, 1)})
 		}
 	}
 	return as
